@@ -20,7 +20,7 @@ CLAIM = {
              "not yet published object / an immutable read / under its lock, except in functions no concurrent API call reaches "
              "(exact exception list is part of the theorem); the source text of Get/Compute/Reset/add the model was transcribed from is "
              "pinned. Everything else of the property (pools, generated code, module registration, the real Go memory model, the "
-             "public API under concurrency) is covered only by -race runs against a sequential fresh-process oracle."),
+             "public API under concurrency, sync.Pool recycling after failing calls) is covered only by -race / plain runs against a fresh-process oracle."),
     "note": ("Trusted: Coq kernel, translator (syntactic classification, static call graph), extraction, Go race detector and harness. "
              "sync.Pool recycling, registerModule and the JIT-generated code are outside the model."),
     "technique": "Coq proof over an interleaving model + translator-generated access discipline + -race differential runs",
@@ -131,7 +131,45 @@ def run(ctx):
                               {"mode": "api", "seed": s, "args": " ".join(args), "concurrent": a, "sequential": b, "differing_calls": len(diff)}))
         elif i == 0 and ls:
             ctx.sample({"api_call": ls[0]})
-    evals += api_calls
+    # ---- T3: pool recycling: thousands of calls failing inside nested documents, then / meanwhile probes (fresh-process oracle)
+    ok2, hplain = c.build_harness("c08")          # no -race: in race builds sync.Pool drops a quarter of the Puts
+    pool_evals = 0
+    if not ok2:
+        problems.append(("T", "harness (no race) does not build: " + hplain[-800:]))
+    else:
+        po = os.path.join(work, "pool.oracle")
+        nflood = 3000 if quick else 12000
+        rc0, o0 = c.sh([hplain, "-mode", "pool", "-flood", "0", "-seed", str(seed), "-out", po], env=env, timeout=600, check=False)
+        if rc0 != 0:
+            problems.append(("T", "pool oracle run failed: " + o0[-500:]))
+        else:
+            oracle = [l.split("\t") for l in open(po).read().splitlines()]
+            for name, exe, g in (("plain", hplain, 8), ("race", hb, 8)) + ((("plain-32", hplain, 32),) if not quick else ()):
+                pf = os.path.join(work, "pool." + name)
+                args = ["-mode", "pool", "-flood", str(nflood if name != "race" else nflood // 3), "-g", str(g), "-seed", str(seed), "-out", pf]
+                rc1, o1 = c.sh([exe] + args, env=env, timeout=1200, check=False)
+                if rc1 == 66 or "WARNING: DATA RACE" in o1:
+                    real_fail.append(("data race reported while failing calls and probes share the pools", {"mode": "pool", "seed": seed, "args": " ".join(args), "race_report": o1[-6000:]}))
+                    continue
+                if rc1 != 0:
+                    real_fail.append(("the process died in the pool-recycling run (exit %d): %s" % (rc1, o1[-300:]),
+                                      {"mode": "pool", "seed": seed, "args": " ".join(args), "output": o1[-6000:]}))
+                    continue
+                got = [l.split("\t") for l in open(pf).read().splitlines()]
+                for a, b in zip(oracle, got):
+                    pool_evals += 1
+                    want = a[2].split(" @ ")[0]
+                    for r in b[2].split(" || "):
+                        res, _, phase = r.partition(" @ ")
+                        if res != want:
+                            real_fail.append(("pooled state leaks between calls: '%s' returns %s %s, but %s in a fresh process"
+                                              % (b[1], res[:160], phase, want[:160]),
+                                              {"mode": "pool", "seed": seed, "build": name, "args": " ".join(args), "probe": b[1],
+                                               "result": res, "when": phase, "fresh_process_result": want}))
+                            break
+            dist["pool"] = {"probes": len(oracle), "failing_calls_per_kind": nflood, "kinds": 8, "phases": "sequential per kind, then concurrent (8 flooders + 4 probers)",
+                            "builds": "without -race and with -race"}
+    evals += api_calls + pool_evals
     dist["api"] = {"runs": [{"goroutines": g, "fresh_types": k, "calls_per_goroutine": n} for g, k, n in runs], "calls_compared": api_calls,
                    "ops": "Marshal, Unmarshal, Pretouch, Valid, Get (uniform), types: generated StructOf (5/6) + safe catalogue (1/6), wrappers T,*T,[]T,map[string]T"}
     ctx.cov["evaluations"] = evals
